@@ -18,7 +18,7 @@ def run(tier):
     ck = runner.Check(PROP, tier, "fault_enumeration")
     n = runner.NCPU
     t = ["tier=" + tier]
-    for mode in ("depth", "items", "stack", "mem"):
+    for mode in ("depth", "reuse", "items", "stack", "mem"):
         ck.add(runner.run_slices(b, [mode] + t, nslices=n, timeout=3000))
     ck.rule = ("depth: 20 container shapes over JSON/CBOR/MessagePack/UBJSON/BSON/TOON decoders (definite, indefinite, counted, tagged, "
                "16/32-bit headers) x limit L (quick: 1,2,3,10,64,65,66,1024; thorough: every L in 1..300 and 1023,1024,1025,5000,20000,50000) "
